@@ -13,7 +13,7 @@ JSON-encodable, which is all the validation code looks at. -/
 namespace VM
 
 inductive PyClass where
-  | noneType | bool | int | float | str | list | dict | bytes | other
+  | noneType | bool | int | float | str | list | dict | bytes | type | other
 deriving DecidableEq, Repr, Inhabited
 
 inductive Val where
@@ -25,12 +25,13 @@ inductive Val where
   | bytes (id : Nat)
   | list (id : Nat) (enc : Bool)     -- enc: every element is JSON-encodable
   | dict (id : Nat) (enc : Bool)
+  | cls (id : Nat)                   -- a class object (what `write_traceback` passes as `exception`)
   | obj (id : Nat) (enc : Bool)      -- any other object; enc: `json_default` knows how to encode it
 deriving DecidableEq, Repr, Inhabited
 
 def Val.classOf : Val → PyClass
   | .none => .noneType | .bool _ => .bool | .int _ => .int | .flt .. => .float | .str _ => .str
-  | .bytes _ => .bytes | .list .. => .list | .dict .. => .dict | .obj .. => .other
+  | .bytes _ => .bytes | .list .. => .list | .dict .. => .dict | .cls _ => .type | .obj .. => .other
 
 /-- `isinstance(v, c)` on the classes `Field.forTypes` admits (`bool` is a subclass of `int`) -/
 def isInstance (v : Val) (c : PyClass) : Bool :=
@@ -64,7 +65,7 @@ def Val.encodable : Val → Bool
   | .none => true | .bool _ => true
   | .int i => decide (-(2 : Int) ^ 63 ≤ i) && decide (i ≤ (2 : Int) ^ 64 - 1)
   | .flt .. => true | .str _ => true
-  | .bytes _ => false
+  | .bytes _ => false | .cls _ => false
   | .list _ e => e | .dict _ e => e | .obj _ e => e
 
 /-- Exception classes. -/
